@@ -43,8 +43,9 @@ type Scope struct {
 }
 
 type Item struct {
-	Node *Node
-	Uses string // qname as written
+	Node    *Node
+	Uses    string   // qname as written
+	UsesIfF []string // if-feature statements of the uses
 }
 
 type Typedef struct {
@@ -74,7 +75,8 @@ type TypeRef struct {
 }
 
 type Node struct {
-	Kind      string // container list leaf leaf-list choice case anyxml anydata rpc action notification input output
+	IfF       []string // if-feature statements, in written order
+	Kind      string   // container list leaf leaf-list choice case anyxml anydata rpc action notification input output
 	Name      string
 	Config    *bool
 	Type      *TypeRef
@@ -90,6 +92,7 @@ type Node struct {
 type Step struct{ Prefix, Name string }
 
 type Augment struct {
+	IfF  []string
 	Path []Step
 	Body *Scope
 	File *Mod
@@ -157,6 +160,9 @@ func Print(m *Mod) string {
 	for _, r := range m.Revs {
 		p.line("revision %s;", r)
 	}
+	if !m.Sub {
+		p.line("feature fz0; feature fz1; feature fz2; feature fz3; feature fz4;")
+	}
 	for _, id := range m.Idents {
 		if len(id.Bases) == 0 {
 			p.line("identity %s;", id.Name)
@@ -172,6 +178,9 @@ func Print(m *Mod) string {
 	for _, a := range m.Augments {
 		p.line("augment %q {", pathString(a.Path))
 		p.ind++
+		for _, f := range a.IfF {
+			p.line("if-feature %s;", f)
+		}
 		p.scope(a.Body)
 		p.ind--
 		p.line("}")
@@ -249,7 +258,15 @@ func (p *printer) scope(s *Scope) {
 	}
 	for _, it := range s.Items {
 		if it.Node == nil {
-			p.line("uses %s;", it.Uses)
+			if len(it.UsesIfF) == 0 {
+				p.line("uses %s;", it.Uses)
+			} else {
+				p.line("uses %s {", it.Uses)
+				for _, f := range it.UsesIfF {
+					p.line("  if-feature %s;", f)
+				}
+				p.line("}")
+			}
 			continue
 		}
 		p.node(it.Node)
@@ -261,6 +278,9 @@ func (p *printer) node(n *Node) {
 	p.ind++
 	if n.Key != "" {
 		p.line("key %q;", n.Key)
+	}
+	for _, f := range n.IfF {
+		p.line("if-feature %s;", f)
 	}
 	if n.Config != nil {
 		p.line("config %v;", *n.Config)
@@ -316,6 +336,7 @@ type TSum struct {
 }
 
 type X struct {
+	IfF        []string // expected Extra["if-feature"]: the node's own, then those of every uses and augment that placed it as one of their top-level nodes
 	ViaUses    bool // placed (directly or through an ancestor) by a uses expansion
 	ViaAugment bool // placed (directly or through an ancestor) by an augment
 	DefFile    *Mod // file whose text defines the node
@@ -491,9 +512,18 @@ func (r *Resolver) instantiate(s *Scope, under *X, placing *Mod, depth int) {
 				r.errf("unknown-grouping", "%s", it.Uses)
 				continue
 			}
+			before := map[string]bool{}
+			for k := range under.Children {
+				before[k] = true
+			}
 			r.viaUses++
 			r.instantiate(g.Body, under, placing, depth+1)
 			r.viaUses--
+			for k, c := range under.Children {
+				if !before[k] {
+					c.IfF = append(c.IfF, it.UsesIfF...)
+				}
+			}
 			continue
 		}
 		r.curFile = s.File
@@ -609,6 +639,7 @@ func (r *Resolver) ResolveType(t *TypeRef, depth int) *TSum {
 func (r *Resolver) instNode(n *Node, under *X, placing *Mod, depth int) {
 	x := newX(n.Name, n.Kind, under, placing, n)
 	x.DefFile = r.curFile
+	x.IfF = append([]string{}, n.IfF...)
 	x.ViaUses = r.viaUses > 0 || (under != nil && under.ViaUses)
 	x.ViaAugment = r.viaAugment > 0 || (under != nil && under.ViaAugment)
 	if n.Type != nil {
@@ -780,9 +811,18 @@ func (r *Resolver) Resolve() {
 				r.errf("augment-target-childless", "%s", pathString(a.a.Path))
 				continue
 			}
+			beforeA := map[string]bool{}
+			for k := range t.Children {
+				beforeA[k] = true
+			}
 			r.viaAugment++
 			r.instantiate(a.a.Body, t, a.a.File.Module(), 0)
 			r.viaAugment--
+			for k, c := range t.Children {
+				if !beforeA[k] {
+					c.IfF = append(c.IfF, a.a.IfF...)
+				}
+			}
 		}
 		if !progress {
 			break
